@@ -19,15 +19,32 @@ def build(rng, tier, facts, edges, name, nmax):
     for _ in range(min(len(es), rng.choice([0, 2, 6]))):
         e = rng.choice(es); vals.append(rng.choice((1, -1)) * ulps(e, rng.choice([-3, -2, -1, 0, 0, 1, 2, 3])))
     rng.shuffle(vals)
-    for v in vals: b.kadd("k", v)
-    n = len(vals)
-    qs = [0.0, 1.0, 0.5, rng.random(), rng.random()]
-    if n > 1:
-        for k in rng.sample(range(n), min(n, 4)):
-            q = k / (n - 1); qs += [q, nextafter(q, True) if q < 1 else q, nextafter(q, False) if q > 0 else q]
-    snap = list(b.vals["k"])
-    for q in qs:
-        b.emit("q k %s" % f2h(q), (lambda q: lambda a, env: oracle_quantile_unit(snap, q, env.alpha("k"), env.minidx("k"))(a))(q))
+    if rng.random() < 0.25:
+        # arrival patterns around the paginated store's compaction points: k values of one bin, then j far-apart values in
+        # decreasing (or increasing) order, queried only once everything is in
+        sizes = [31, 32, 33, 63, 64, 65, 95, 96, 97]
+        v0 = rng.choice((1, -1)) * 10 ** rng.uniform(-1, 1)
+        far = sorted(rand_values(rng, rng.choice(sizes + [64, 64, 64, 128]), -3, 3, zeros=0, signs=((1,) if v0 > 0 else (-1,))), reverse=rng.random() < 0.7)
+        vals = [v0 * (1 + rng.random() * 1e-4) for _ in range(rng.choice(sizes))] + far
+    def queries():
+        snap = list(b.vals["k"]); n = len(snap)
+        qs = [0.0, 1.0, 0.5, rng.random(), rng.random()]
+        if n > 1:
+            for k in rng.sample(range(n), min(n, 4)):
+                q = k / (n - 1); qs += [q, nextafter(q, True) if q < 1 else q, nextafter(q, False) if q > 0 else q]
+        for q in qs:
+            b.emit("q k %s" % f2h(q), (lambda q, snap: lambda a, env: oracle_quantile_unit(snap, q, env.alpha("k"), env.minidx("k"))(a))(q, snap))
+    if rng.random() < 0.5 and len(vals) >= 4:
+        # queries interleaved with additions: the guarantee holds after every prefix; later chunks revisit earlier values (existing bins)
+        cuts = sorted(rng.sample(range(1, len(vals)), min(3, len(vals) - 1)))
+        prev = 0
+        for c in cuts + [len(vals)]:
+            for v in vals[prev:c]: b.kadd("k", v)
+            for _ in range(rng.choice([0, 3, 10])): b.kadd("k", rng.choice(vals[:c]))
+            queries(); prev = c
+    else:
+        for v in vals: b.kadd("k", v)
+        queries()
     b.emit("kobs k")
     return b
 
